@@ -125,7 +125,7 @@ def gen_rollout_case(ck, rng, idx, *, force_vec=None, det=None, Tmax=10):
             if not np.array_equal(np.asarray(cbs.keyd[t]), np.asarray(want)):
                 cb_key_ok = False
             n_done += rows[-1]["done"]
-            if asp[0] == "box" and asp[2] is not None and not (asp[2] <= rows[-1]["act"] <= asp[3]):
+            if asp[0] == "box" and ((asp[2] is not None and rows[-1]["act"] < asp[2]) or (asp[3] is not None and rows[-1]["act"] > asp[3])):
                 n_oob += 1
         fc, fs = canon_state(o.env_state)
         fh = int(o.policy_state.h)
